@@ -32,7 +32,7 @@ FUNCTIONS = [
     "unified_planning.engines.mixins.oneshot_planner:OneshotPlannerMixin.solve",
     "unified_planning.engines.plan_validator:SequentialPlanValidator._validate",
 ]
-BOUNDS = ("IF programs: n:int[0,4], b:bool; F from 5 lambdas, B from 4 lambdas; 12 problem shapes (IF in a precondition: comparison / equality / "
+BOUNDS = ("IF programs: n:int[0,4], b:bool; F from 5 lambdas, B from 4 lambdas; 16 problem shapes (IF in a precondition: comparison / equality / "
           "Boolean function / negated / mixed with arithmetic / disjunction / nested F(F(n)) / F(n+1); IF as numeric effect value; as Boolean effect value; in precondition and effect "
           "value of one action; in the condition of a conditional effect), "
           "constants c in {0,2,3}, initial n in {0,1}; K = 10 = |state space|.  Oversubscription programs: a,b,c:bool, n:int[0,2], 3 action "
@@ -47,7 +47,7 @@ F_POOL = [lambda v: v * v - 2, lambda v: 4 - v, lambda v: (2 * v) % 5, lambda v:
 F_NAMES = ["v*v-2", "4-v", "(2v)%5", "3", "v+1"]
 B_POOL = [lambda v: v % 2 == 0, lambda v: v >= 3, lambda v: False, lambda v: v == 1]
 B_NAMES = ["even", ">=3", "false", "==1"]
-IF_SHAPES = ["pre-lt", "pre-eq", "pre-bool", "pre-notbool", "pre-arith", "pre-or", "pre-nested", "pre-argplus", "eff-num", "eff-bool", "eff-both", "eff-cond"]
+IF_SHAPES = ["pre-lt", "pre-eq", "pre-bool", "pre-notbool", "pre-arith", "pre-or", "pre-nested", "pre-argplus", "eff-num", "eff-bool", "eff-both", "eff-cond", "eff-chain", "eff-chain-bool", "eff-then-dec", "eff-stale-bounds"]
 NMAX = 4
 
 
@@ -91,6 +91,56 @@ def build_if(env, shape, fi, bi, c, x0):
         p.add_action(gate)
         p.add_goal(b())
         p.add_goal(em.GE(n(), 2))
+    elif shape in ("eff-chain", "eff-chain-bool"):
+        # a fluent that only receives its value from an IF-assigned fluent, through an action declared BEFORE the IF action
+        m = Fluent("m", tm.IntType(0, NMAX), environment=env)
+        d = Fluent("d", tm.BoolType(), environment=env)
+        p.add_fluent(m, default_initial_value=0)
+        p.add_fluent(d, default_initial_value=False)
+        copy = InstantaneousAction("copy", _env=env)
+        if shape == "eff-chain":
+            copy.add_effect(m, n())
+        else:
+            copy.add_effect(d, True, b())
+        p.add_action(copy)
+        jump = InstantaneousAction("jump", _env=env)
+        jump.add_precondition(em.Not(b()))
+        if shape == "eff-chain":
+            jump.add_effect(n, Fn)
+            jump.add_effect(b, True)
+            p.add_goal(em.Equals(m(), c))
+            p.add_goal(b())
+        else:
+            jump.add_effect(b, Bn)
+            p.add_goal(d())
+        p.add_action(jump)
+    elif shape in ("eff-then-dec", "eff-stale-bounds"):
+        # the IF-assigned fluent is decreased (by a separate action) before it is tested.  eff-then-dec: the value the fluent had
+        # before the IF assignment can be decreased as well (n0 >= 1, one decrement); eff-stale-bounds: it cannot (n0 = 0)
+        p.set_initial_value(n(), x0 + 1 if shape == "eff-then-dec" else 0)
+        d = Fluent("d", tm.BoolType(), environment=env)
+        e = Fluent("e", tm.BoolType(), environment=env)
+        p.clear_actions()  # no free `inc`: every plan is jump, dec+, gate
+        p.add_fluent(d, default_initial_value=False)
+        p.add_fluent(e, default_initial_value=False)
+        jump = InstantaneousAction("jump", _env=env)
+        jump.add_precondition(em.Not(d()))
+        jump.add_effect(n, Fn)
+        jump.add_effect(d, True)
+        p.add_action(jump)
+        dec = InstantaneousAction("dec", _env=env)
+        dec.add_precondition(d())
+        dec.add_precondition(em.Not(e()))
+        dec.add_precondition(em.GT(n(), 0))
+        dec.add_decrease_effect(n, 1)
+        dec.add_effect(e, True)
+        p.add_action(dec)
+        gate = InstantaneousAction("gate", _env=env)
+        gate.add_precondition(e())
+        gate.add_precondition(em.Equals(n(), c))
+        gate.add_effect(b, True)
+        p.add_action(gate)
+        p.add_goal(b())
     elif shape == "eff-bool":
         probe = InstantaneousAction("probe", _env=env)
         probe.add_effect(b, Bn)
@@ -112,7 +162,7 @@ def build_if(env, shape, fi, bi, c, x0):
         p.add_action(jump)
         p.add_goal(b())
         p.add_goal(em.Equals(n(), c))
-    desc = f"{shape} F={F_NAMES[fi]} B={B_NAMES[bi]} c={c} n0={x0}"
+    desc = f"{shape} F={F_NAMES[fi]} B={B_NAMES[bi]} c={c} n0={p.initial_value(n())}"
     return p, desc
 
 
@@ -158,15 +208,15 @@ def h_if(ctx, shape, fis=None, bis=None, cs=(0, 2, 3), x0s=(0, 1)):
     from vf import tvlib
     from vf.refsem import Ref
 
-    uses_f = shape not in ("pre-bool", "pre-notbool", "eff-bool")
-    uses_b = shape in ("pre-bool", "pre-notbool", "pre-or", "eff-bool", "eff-both", "eff-cond")
+    uses_f = shape not in ("pre-bool", "pre-notbool", "eff-bool", "eff-chain-bool")
+    uses_b = shape in ("pre-bool", "pre-notbool", "pre-or", "eff-bool", "eff-both", "eff-cond", "eff-chain-bool")
     if shape == "pre-nested":  # keep F(F(n)) inside the tabulated domain
         fis = [i for i in (fis if fis is not None else range(len(F_POOL))) if i in (1, 2, 3)]
     fis = list(fis) if fis is not None else list(range(len(F_POOL)))
     bis = list(bis) if bis is not None else list(range(len(B_POOL)))
     fi = fis[ctx.choice("F", len(fis))] if uses_f else 0
     bi = bis[ctx.choice("B", len(bis))] if uses_b else 0
-    c = list(cs)[ctx.choice("c", len(cs))] if shape not in ("pre-bool", "pre-notbool") else 0
+    c = list(cs)[ctx.choice("c", len(cs))] if shape not in ("pre-bool", "pre-notbool", "eff-chain-bool") else 0
     x0 = list(x0s)[ctx.choice("n0", len(x0s))]
     env = ctx.fresh_env()
     _register(env)
